@@ -42,6 +42,7 @@ PreConn   == {"reset_pre"}                       \* connection-level failure, no
 PreOther  == {"close_pre", "garbage"}            \* nothing delivered, not classed as connection error
 Post      == {"hdr_then_reset", "reset_after", "close_after"}   \* response started, then the backend died
 Answered  == {"ok", "http", "http_big", "http_alt"}   \* complete response (any status)
+Abandoned == {"cabort"}                          \* a slow, healthy answer the CLIENT walks away from after its first token
 Routable(s) == s \in {"healthy", "busy", "warming"}
 
 Reqs == DOMAIN rq
@@ -115,6 +116,12 @@ AttemptEnd(r) ==
                  /\ rq' = [rq EXCEPT ![r] = [@ EXCEPT !.phase = "truncated", !.started = TRUE]]
                  /\ EBRecord(e, TRUE) /\ UNCHANGED status
                  /\ cnt' = [cnt EXCEPT ![e].fail = @ + 1]
+            [] k \in Abandoned ->
+                 \* C19 "whatever mix of ... client aborts": the attempt is booked exactly once, and -- the client did not
+                 \* receive the response in full -- not as a success.  Nothing is said about the engine breaker.
+                 /\ rq' = [rq EXCEPT ![r] = [@ EXCEPT !.phase = "aborted", !.started = TRUE]]
+                 /\ (EBRecord(e, TRUE) \/ EBRecord(e, FALSE)) /\ UNCHANGED status
+                 /\ cnt' = [cnt EXCEPT ![e].fail = @ + 1]
             [] k \in PreConn ->
                  /\ rq' = [rq EXCEPT ![r] = [@ EXCEPT !.phase = "choosing", !.last = "preconn"]]
                  /\ status' = [status EXCEPT ![e] = "offline"]      \* C04: out of rotation
@@ -170,6 +177,7 @@ RespKind(r) == CASE rq[r].phase = "responded" -> "full"
                  [] rq[r].phase = "truncated" -> "partial"
                  [] rq[r].phase = "failed"    -> "error"
                  [] rq[r].phase = "crashed"   -> "crash"
+                 [] rq[r].phase = "aborted"   -> "aborted"
                  [] OTHER -> None
 \* the client has read its response; v is the logged view [st, from, e, a, n, complete, junk, bodyClass]
 Translated(route) == route \in {"anthropic", "anthropic_stream"}
@@ -194,6 +202,8 @@ ClientDone(r, v) ==
                /\ v.junk < TokenLen      \* at most a torn token; never text of olla's own making
                /\ v.hmAll = 2 /\ v.hmOwn = 2
          [] RespKind(r) = "partial" /\ Translated(q.route) -> TRUE
+         \* the client walked away: whatever it had read by then came from that one attempt
+         [] RespKind(r) = "aborted" -> (v.from => (v.e = q.cur /\ v.a = q.att /\ v.n <= q.pn)) /\ v.mixed = FALSE
          [] RespKind(r) = "crash" -> ~v.from /\ (v.st = 0 \/ v.st >= 500) /\ v.n = 0
          [] RespKind(r) = "error" ->                       \* C05: a failure is reported as a failure
                /\ ~v.from /\ v.st >= 400 /\ v.n = 0 /\ v.bodyClass # "empty"
@@ -209,6 +219,8 @@ SpecView(r) == LET q == rq[r] IN
                                      n |-> q.pn, junk |-> q.pb, mixed |-> FALSE, bodyClass |-> "tokens", ms |-> 1, hmAll |-> 2, hmOwn |-> 2]
       [] RespKind(r) = "partial" -> [from |-> TRUE, e |-> q.cur, a |-> q.att, st |-> q.pst, complete |-> FALSE,
                                      n |-> q.pk, junk |-> 0, mixed |-> FALSE, bodyClass |-> "tokens", ms |-> 1, hmAll |-> 2, hmOwn |-> 2]
+      [] RespKind(r) = "aborted" -> [from |-> TRUE, e |-> q.cur, a |-> q.att, st |-> q.pst, complete |-> FALSE,
+                                     n |-> 1, junk |-> 0, mixed |-> FALSE, bodyClass |-> "tokens", ms |-> 1, hmAll |-> 2, hmOwn |-> 2]
       [] RespKind(r) = "crash"   -> [from |-> FALSE, e |-> None, a |-> 0, st |-> 0, complete |-> FALSE,
                                      n |-> 0, junk |-> 0, mixed |-> FALSE, ms |-> 1, bodyClass |-> "empty", hmAll |-> 0, hmOwn |-> 0]
       [] OTHER                   -> [from |-> FALSE, e |-> None, a |-> 0, st |-> 502, complete |-> TRUE,
@@ -251,7 +263,7 @@ Conserved == \A e \in EP :
     cnt[e].ok + cnt[e].fail + Cardinality(InFlight(e)) =
         Cardinality({r \in Reqs : e \in rq[r].tried}) + Cardinality({r \in Reqs : e \in rq[r].skipped})
 TypeOK == /\ \A e \in EP : gauge[e] \in Nat /\ ebFail[e] \in 0..EBThreshold
-          /\ \A r \in Reqs : rq[r].phase \in {"choosing", "attempting", "responded", "truncated", "failed", "crashed", "done"}
+          /\ \A r \in Reqs : rq[r].phase \in {"choosing", "attempting", "responded", "truncated", "aborted", "failed", "crashed", "done"}
 
 MCConstraint == Len(scn) <= 9
 View == <<engine, status, down, boom, models, ebFail, ebOpen, rq, gauge, cnt>>
